@@ -80,6 +80,14 @@ CHECKS = {
                 technique="TableConc.tla for the lock protocol + trace validation (ConcTrace.tla) of reader threads running against atomic reloads performed by the real rtr_sync(); one reader is steered (link-time wrap of pthread_rwlock_rdlock) to sit at the lock across each reload",
                 text="The real rtr_sync() reloads thousands of records (scripted in-memory transport, with and without router keys) while readers validate probe routes and look up probe keys; each read logs a global sequence number at call and return and the generations complete / in progress; TLC accepts a read iff it equals the data of exactly one generation in that window (never empty or mixed) and no read that starts after another returned sees an older generation (per table).",
                 note='lock-protocol model exhaustive for 2 readers x 3 mutations; on the code side schedules are sampled by the OS scheduler (plus one steered reader for C06); acceptance criteria are sound for any schedule, a race window can be missed; ASan/TSan as instruments'),
+    "C11": dict(engine="bgpsec", cat="exploration", ref="5/C11",
+                technique="symbolic model Bgpsec.tla (signatures as terms over RFC 8205 digest tuples; Expected(case) = admissible results) enumerated by TLC into a case analysis; harness concretises with fresh P-256 keys and an independent RFC 8205 serialiser; BgpsecTrace.tla judges every library verdict",
+                text="Every key-table variant per hop (right key, two keys per SKI, wrong key, key under another AS only, no key, key withdrawn mid-validation) for 1-3 hops, every single-field corruption (target, pCount, flags, AS, SAFI, AFI, NLRI bit, NLRI length, SKI, signature value, signature DER framing) at every hop, and the argument errors; IPv4 and IPv6 NLRI of varying bit length; signatures made by the harness's own digest serialiser + ECDSA_sign. VALID is accepted only where the model says every hop verifies under a key of its AS and SKI; specific codes otherwise. One open known finding (keys are looked up by SKI only).",
+                note="OpenSSL libcrypto and the harness's own RFC 8205 serialiser are the trusted base for ECDSA, SHA-256 and the byte layout; TLA+ decides the decision structure only; seeded concretisations; ASan build"),
+    "C12": dict(engine="bgpsec", cat="exploration", ref="5/C12",
+                technique="Bgpsec.tla GenExpected + hop-by-hop construction with rtr_bgpsec_generate_signature; every produced segment parsed as DER and verified by an independent RFC 8205 digest + ECDSA_verify; finished paths validated; BgpsecTrace.tla judges",
+                text="Originations and forwardings for paths of 1-4 hops over IPv4 NLRI lengths 0..32 and IPv6 lengths 0..128 (all lengths in the thorough tier), random pCount/flags/AS, fresh keys: each generated Signature Segment must be well-formed DER, verify under the public key against the harness's own serialisation of the RFC 8205 section 4.2 digest, and the finished path must validate as VALID; unloadable key, unsupported suite/AFI and wrong segment count must yield their codes.",
+                note="OpenSSL libcrypto and the harness's own RFC 8205 serialiser are the trusted base for ECDSA, SHA-256 and the byte layout; TLA+ decides the decision structure only; seeded concretisations; ASan build"),
 }
 
 NA_REASON = "check not built yet in this round (planned: see DESIGN.md section 5); no claim is made"
